@@ -67,6 +67,23 @@ def generate(rng, tier, index):
                 pending.remove(i)
                 answered.append(i)
             events.append({'e': 'reply', 'ids': ids, 'coalesce': coalesce})
+        elif r < 0.84 and pending and not lost:
+            # one stream segment carrying stray frames next to genuine replies, possibly cut
+            parts = []
+            take = pending[:rng.randint(1, min(3, len(pending)))] if variant == 'serial' else \
+                rng.sample(pending, rng.randint(1, min(3, len(pending))))
+            for i in take:
+                if rng.random() < 0.5 and variant == 'tcp':
+                    parts.append({'kind': 'unsolicited', 'tid': (unsol_base + rng.randrange(1000)) & 0xFFFF})
+                if rng.random() < 0.3 and answered and variant == 'tcp':
+                    parts.append({'kind': 'dup', 'id': rng.choice(answered)})
+                parts.append({'kind': 'reply', 'id': i})
+                pending.remove(i)
+                answered.append(i)
+            ev = {'e': 'rx', 'parts': parts}
+            if rng.random() < 0.4:
+                ev['cuts'] = sorted(set(rng.randrange(1, 12 * len(parts) + 4) for _ in range(rng.randint(1, 3))))
+            events.append(ev)
         elif r < 0.87:
             events.append({'e': 'unsolicited', 'tid': (unsol_base + rng.randrange(1000)) & 0xFFFF})
         elif r < 0.93 and answered:
@@ -154,6 +171,20 @@ def execute(scn):
                 if rid in pending:
                     pending.remove(rid)
                     expect[rid]['cb'] += 1
+        elif e == 'rx':
+            for part in ev['parts']:
+                if part['kind'] == 'reply':
+                    if part['id'] in pending:
+                        pending.remove(part['id'])
+                        expect[part['id']]['cb'] += 1
+                else:
+                    context_flags.add('unsolicited' if part['kind'] == 'unsolicited' else 'dup')
+                    if pending:
+                        context_flags.add('unsolicited-while-pending' if part['kind'] == 'unsolicited' else 'dup-while-pending')
+                    if part['kind'] == 'unsolicited' and variant == 'tcp':
+                        tids = [res.reqs[p_].get('tid') for p_ in pending if p_ in res.reqs]
+                        if part.get('tid') in tids:
+                            out['inconclusive'] = True
         elif e == 'unsolicited':
             context_flags.add('unsolicited')
             if variant == 'tcp':
@@ -225,6 +256,8 @@ def execute(scn):
     out['probes']['tid_wrap_crossed'] = 1 if ts + sum(1 for ev in scn['events'] if ev['e'] == 'req') > 0xFFFF else 0
     out['probes']['max_outstanding'] = max_out
     out['probes']['coalesced_deliveries'] = sum(1 for ev in scn['events'] if ev['e'] == 'reply' and ev.get('coalesce') and len(ev['ids']) > 1)
+    out['probes']['stray_and_reply_in_one_segment'] = sum(1 for ev in scn['events'] if ev['e'] == 'rx' and len(ev['parts']) > 1)
+    out['probes']['cut_segments'] = sum(1 for ev in scn['events'] if ev['e'] == 'rx' and ev.get('cuts'))
     out['probes']['lose_with_2plus_pending'] = 1 if 'lose' in context_flags and max_out >= 2 else 0
     out['cell'] = '%s/%s' % (variant, ctx)
     return out
@@ -236,6 +269,16 @@ def shrink_steps(scn):
         s['events'] = cand
         yield s
     for i, ev in enumerate(scn['events']):
+        if ev['e'] == 'rx':
+            if ev.get('cuts'):
+                s = copy.deepcopy(scn)
+                s['events'][i]['cuts'] = []
+                yield s
+            if len(ev['parts']) > 1:
+                for j in range(len(ev['parts'])):
+                    s = copy.deepcopy(scn)
+                    del s['events'][i]['parts'][j]
+                    yield s
         if ev['e'] == 'reply' and len(ev['ids']) > 1:
             for j in range(len(ev['ids'])):
                 s = copy.deepcopy(scn)
